@@ -356,6 +356,90 @@ func (c *vC10Case) refOffs() []int64 {
 	return o
 }
 
+// live: a forward subscription that has caught up with the HW stays open while messages are
+// appended, the log is cleaned (segments replaced by compaction, deleted by retention) and the HW
+// moves on; it must then deliver exactly the retained messages above the old HW, each once.
+func (c *vC10Case) live(r *vRand, pool [][]byte, compact, cleans bool) {
+	var cands []int64
+	for _, x := range c.ref {
+		if x.off <= c.hw {
+			cands = append(cands, x.off)
+		}
+	}
+	if len(cands) == 0 {
+		return
+	}
+	start := cands[r.intn(len(cands))]
+	ctx, cancel := context.WithCancel(context.Background())
+	defer cancel()
+	sub, st := c.p.Subscribe(ctx, &client.SubscribeRequest{Stream: c.name, Partition: 0, StartPosition: client.StartPosition_OFFSET, StartOffset: start})
+	if st != nil {
+		c.violation("live-subscribe-refused", st.Message())
+		return
+	}
+	drain := func() ([]int64, string) {
+		var offs []int64
+		idle := time.NewTimer(60 * time.Millisecond)
+		defer idle.Stop()
+		for {
+			select {
+			case m := <-sub.Messages():
+				offs = append(offs, m.Offset)
+				if !idle.Stop() {
+					select {
+					case <-idle.C:
+					default:
+					}
+				}
+				idle.Reset(60 * time.Millisecond)
+			case e := <-sub.Errors():
+				return offs, e.Message()
+			case <-idle.C:
+				return offs, ""
+			}
+		}
+	}
+	want := func(lo, hi int64) []int64 {
+		var w []int64
+		for _, x := range c.ref {
+			if x.off >= lo && x.off <= hi {
+				w = append(w, x.off)
+			}
+		}
+		return w
+	}
+	got1, e1 := drain()
+	if w := want(start, c.hw); e1 != "" || fmt.Sprint(got1) != fmt.Sprint(w) {
+		c.violation("live-first-batch", fmt.Sprintf("live subscription from %d (hw %d) delivered %v %q, retained committed messages are %v", start, c.hw, got1, e1, w))
+		return
+	}
+	oldHW := c.hw
+	c.appendMsgs(r, 1+r.intn(3), pool)
+	if cleans {
+		c.clean(compact)
+	}
+	if r.intn(2) == 0 {
+		c.appendMsgs(r, 1+r.intn(3), pool)
+	}
+	c.setHW(c.p.log.NewestOffset())
+	got2, e2 := drain()
+	if w := want(oldHW+1, c.hw); e2 != "" || fmt.Sprint(got2) != fmt.Sprint(w) {
+		c.violation("live-across-clean", fmt.Sprintf("live subscription caught up at hw %d; after appends%s and hw %d it delivered %v %q, retained messages above the old hw are %v",
+			oldHW, map[bool]string{true: " and a clean", false: ""}[cleans], c.hw, got2, e2, w))
+	}
+	c.stats["live/"+map[bool]string{true: "clean", false: "noclean"}[cleans]]++
+	cancel()
+	sub.Close()
+	deadline := time.Now().Add(time.Second)
+	for vC13SubscriberCount(c.p) != 0 && time.Now().Before(deadline) {
+		select {
+		case <-sub.Errors():
+		default:
+		}
+		time.Sleep(200 * time.Microsecond)
+	}
+}
+
 func TestVerifC10(t *testing.T) {
 	out := vOpenOut()
 	defer out.close()
@@ -452,6 +536,13 @@ func TestVerifC10(t *testing.T) {
 				q.stopArg = tsOf()
 			}
 			c.subscribe(q)
+		}
+		if !c.ro && shape != "empty" && c.viol == "" && len(c.ref) > 0 {
+			var pool [][]byte
+			if compact {
+				pool = [][]byte{[]byte("a"), []byte("b"), nil, []byte("c")}
+			}
+			c.live(r, pool, compact, compact || retMsgs > 0)
 		}
 		cj := vM{"k": "log", "id": id, "profile": "c10:" + shape, "maxb": maxb, "cc": false, "ret_bytes": 0, "ret_msgs": retMsgs, "ret_age": 0, "compact": compact, "ops": c.ops}
 		if c.viol != "" {
